@@ -63,6 +63,9 @@ class AimdRateControl:
         now_ms: int,
     ) -> Optional[int]:
         if not self.current_bitrate_initialized and estimated_throughput is not None:
+            # remember the measurement, an over-use may have to be handled
+            # before the next one is available
+            self.latest_estimated_throughput = estimated_throughput
             if self.first_estimated_throughput_time is None:
                 self.first_estimated_throughput_time = now_ms
             elif now_ms - self.first_estimated_throughput_time > 3000:
